@@ -46,7 +46,7 @@ META = {
     'quick_cases': 16000, 'thorough_cases': 640000,
     'timeout': {'quick': 600, 'thorough': 3000},
     'assumptions': ['np.longdouble has a 64-bit mantissa on this platform (checked at start-up)',
-                    'tolerant clauses cannot see errors below 64*eps*(|coords|max + chord length)',
+                    'tolerant clauses cannot see errors below 64*eps*(largest coordinate difference to the first end point + chord length)',
                     'Menger curvature and the perpendicular distance are undefined for coincident points / a == b '
                     '(counted out-of-domain)',
                     'triangle_area is compared in absolute value (the statement does not fix an orientation sign)'],
@@ -82,6 +82,14 @@ def _is_pt(a):
 
 def _cmax(*arrs):
     return float(max(np.max(np.abs(ld(a))) for a in arrs))
+
+
+def _dmax(p, a, b):
+    """Largest coordinate DIFFERENCE to the segment's first end point: distances are translation invariant, and an
+    implementation that forms the differences first (as the library does) has errors relative to them, not to the
+    absolute coordinates - a tolerance in units of |coords|max would hide every cancellation at a large offset."""
+    A = ld(a)
+    return float(max(np.max(np.abs(ld(p) - A)), np.max(np.abs(ld(b) - A))))
 
 
 def exact_equal(a, b):
@@ -187,7 +195,7 @@ def post_shortest(ctx, original, args, kwargs, result):
     if res.shape != (len(p),) or res.dtype.kind != 'f':
         return ctx.violation(mon, key, f'result shape/dtype {res.shape}/{res.dtype} for {len(p)} points',
                              p=p, a=a, b=b, result=result)
-    tol = 64 * EPS * (cm + float(chord)) + RTOL * ref
+    tol = 64 * EPS * (_dmax(p, a, b) + float(chord)) + RTOL * ref
     err = np.abs(ld(res) - ref)
     bad = ~(err <= tol)       # NaN-safe
     if not degenerate:
@@ -237,7 +245,7 @@ def post_perp_points(ctx, original, args, kwargs, result):
     if res.shape != (len(p),) or res.dtype.kind != 'f':
         return ctx.violation(mon, 'dist:perp', f'result shape/dtype {res.shape}/{res.dtype} for {len(p)} points',
                              p=p, a=a, b=b, result=result)
-    tol = 64 * EPS * (cm + float(chord)) + RTOL * ref
+    tol = 64 * EPS * (_dmax(p, a, b) + float(chord)) + RTOL * ref
     err = np.abs(ld(res) - ref)
     bad = ~(err <= tol)
     ctx.h('dist_x_layout', f'perp/{layout_of(p)}' + STATE['via'])
@@ -264,7 +272,7 @@ def _line_tolerant(ctx, result, p, a, b, what):
     if res.shape != (len(p),) or res.dtype.kind != 'f':
         return False
     ref, chord = model_line(p, a, b)
-    tol = 64 * EPS * (_cmax(p, a, b) + float(chord)) + RTOL * ref
+    tol = 64 * EPS * (_dmax(p, a, b) + float(chord)) + RTOL * ref
     ok = bool(np.all(np.abs(ld(res) - ref) <= tol))
     if ok:
         ctx.h('tolerant_fallback', what)
@@ -686,6 +694,11 @@ def _gen_rect(rng):
                 if np.all(p1 != p2) and np.all(q1 != q2):
                     break
         dtype = 'i8' if rng.random() < 0.5 else 'f8'
+        if rng.random() < 0.12:
+            # the same lattice configurations in bytes x nanoseconds: sides of several 1e9, areas beyond 2**63
+            sc = np.array([float(rng.integers(2, 9)) * 1e9, float(rng.integers(2, 9)) * 1e9])
+            p1, p2, q1, q2 = [np.asarray(v, dtype=float) * sc for v in (p1, p2, q1, q2)]
+            cls, dtype = cls + ':large-int64', 'i8'
     return {'kind': 'rect', 'cls': cls, 'dtype': dtype, 'p1': np.asarray(p1, dtype=float), 'p2': np.asarray(p2, dtype=float),
             'q1': np.asarray(q1, dtype=float), 'q2': np.asarray(q2, dtype=float)}
 
